@@ -40,6 +40,8 @@ var _ = verifRegister("C47", streamC47)
 
 var c47Stuck atomic.Int32
 
+const c47Patience = 60 * time.Second
+
 const c47Overhead = 96 // only used to pick interesting sizes; the checked constant is Gen.bloblru_overhead
 
 func c47ID(k int) restic.ID { return restic.Hash([]byte("c47-key-" + strconv.Itoa(k))) }
@@ -152,7 +154,10 @@ func c47Seq(h *H) {
 
 	stable := func(only int) bool {
 		// wait until call `only` (or every call when only < 0) is parked at a stable point
-		deadline := time.Now().Add(5 * time.Second)
+		// generous: on an overloaded machine a goroutine may not get to run for seconds; a real
+		// deadlock costs this much once or twice and then the stream stops
+		deadline := time.Now().Add(c47Patience)
+		pause := 20 * time.Microsecond
 		for {
 			want := map[int64]bool{}
 			for i, c := range calls {
@@ -195,7 +200,10 @@ func c47Seq(h *H) {
 				return false
 			}
 			runtime.Gosched()
-			time.Sleep(20 * time.Microsecond)
+			time.Sleep(pause)
+			if pause < 2*time.Millisecond {
+				pause *= 2
+			}
 		}
 	}
 	report := func() {
@@ -252,7 +260,7 @@ func c47Seq(h *H) {
 		c.released = true
 		c.release <- r
 		// the finished call must return, then everybody it woke must settle
-		deadline := time.Now().Add(5 * time.Second)
+		deadline := time.Now().Add(c47Patience)
 		for !c.returned.Load() {
 			if time.Now().After(deadline) {
 				c47Stuck.Add(1)
@@ -410,7 +418,7 @@ func c47Storm(h *H) {
 	go func() { wg.Wait(); close(done) }()
 	select {
 	case <-done:
-	case <-time.After(20 * time.Second):
+	case <-time.After(c47Patience):
 		c47Stuck.Add(1)
 		h.Rec("stuck", "storm-timeout")
 		h.End()
@@ -452,8 +460,8 @@ func streamC47(h *H) {
 	}
 	n := h.N(600, 12000)
 	for i := 0; i < n; i++ {
-		if c47Stuck.Load() >= 3 {
-			// a call that never returns costs a 5 s timeout (and may leave a spinning goroutine
+		if c47Stuck.Load() >= 2 {
+			// a call that never returns costs a long timeout (and may leave a spinning goroutine
 			// behind): enough evidence, stop the stream
 			break
 		}
